@@ -1085,14 +1085,20 @@ func (dc *ClientDnsConnection) RemoteAddr() net.Addr {
 	return dc.Communicator.RemoteAddr()
 }
 
+// SetDeadline sets the read and write deadlines of the tunnelled stream (like the server-side connection does):
+// a Read waits for data in the incoming queue and a Write for the acknowledgement of what it queued, neither of
+// which the communicator's own deadlines can interrupt.
 func (dc *ClientDnsConnection) SetDeadline(t time.Time) error {
-	return dc.Communicator.SetDeadline(t)
+	if err := dc.out.SetWriteDeadline(t); err != nil {
+		return err
+	}
+	return dc.in.SetReadDeadline(t)
 }
 
 func (dc *ClientDnsConnection) SetReadDeadline(t time.Time) error {
-	return dc.Communicator.SetReadDeadline(t)
+	return dc.in.SetReadDeadline(t)
 }
 
 func (dc *ClientDnsConnection) SetWriteDeadline(t time.Time) error {
-	return dc.Communicator.SetWriteDeadline(t)
+	return dc.out.SetWriteDeadline(t)
 }
